@@ -94,6 +94,8 @@ type View struct {
 	Hook func(op string)
 	// FailSends: the next FailSends calls of Send fail with an error and append nothing (a board that is unreachable for a moment)
 	FailSends int
+	// FailSendCall = k > 0: the k-th call of Send from now on fails (the board goes away in the middle of a submission)
+	FailSendCall int
 }
 
 var _ storage.Storage = (*View)(nil)
@@ -110,6 +112,12 @@ func (v *View) Send(msgs ...storage.Message) error {
 	fail := v.FailSends > 0
 	if fail {
 		v.FailSends--
+	}
+	if v.FailSendCall > 0 {
+		v.FailSendCall--
+		if v.FailSendCall == 0 {
+			fail = true
+		}
 	}
 	v.mu.Unlock()
 	if fail {
